@@ -128,7 +128,8 @@ func modelJSON(m map[string]aval) string {
 	sort.Strings(keys)
 	parts := make([]string, len(keys))
 	for i, k := range keys {
-		parts[i] = fmt.Sprintf("%q:%s", k, m[k].json())
+		kb, _ := json.Marshal(k) // (%q is Go quoting, not JSON quoting)
+		parts[i] = string(kb) + ":" + m[k].json()
 	}
 	return "{" + strings.Join(parts, ",") + "}"
 }
